@@ -1797,7 +1797,15 @@ impl<'a> Parser<'a> {
         let previous = s.previous.clone();
         let name = s.identifier_constant(&previous);
 
-        let instance_local_name = s.compiler().locals[0].name.clone();
+        // The receiver is the `self` (or `Self`) of the enclosing method, also when `super` is used
+        // in a function nested inside that method.
+        let instance_local_name = s
+            .compilers
+            .iter()
+            .rev()
+            .map(|c| c.locals[0].name.clone())
+            .find(|n| !n.is_empty())
+            .unwrap_or_default();
         s.named_variable(Token::from_string(instance_local_name.as_str()), false);
         if s.match_token(TokenKind::LeftParen) {
             let arg_count = s.argument_list(
